@@ -7,7 +7,7 @@
 use std::collections::BTreeMap;
 use std::fmt::Write as _;
 
-#[derive(Clone, Copy, PartialEq, Eq, Hash, Debug, PartialOrd, Ord)]
+#[derive(Clone, Copy, PartialEq, Eq, Hash, Debug)]
 pub enum IntTy {
     U8,
     U16,
@@ -85,7 +85,7 @@ impl IntTy {
     }
 }
 
-#[derive(Clone, PartialEq, Eq, Hash, Debug, PartialOrd, Ord)]
+#[derive(Clone, PartialEq, Eq, Hash, Debug)]
 pub enum Ty {
     Bool,
     Int(IntTy),
@@ -171,7 +171,7 @@ impl Defs {
     }
 }
 
-#[derive(Clone, PartialEq, Eq, Hash, Debug, PartialOrd, Ord)]
+#[derive(Clone, PartialEq, Eq, Hash, Debug)]
 pub enum Val {
     Bool(bool),
     Int(i128, IntTy),
